@@ -74,6 +74,18 @@ def chunkSpec (content appendix : Content) : Option (List Str) :=
   if emptyContent content then none
   else some (pieces content ++ (flatten true appendix).flatMap strPieces)
 
+/-- cond_chunk: preamble, content (or the empty-response when the content is empty) and appendix;
+    with `all_or_nothing` an empty content yields the literal empty-response alone.  The content is
+    never filtered: its blank entries stay blank lines. -/
+def condChunkSpec (p c e ap : Content) (aon : Bool) : Option (List Str) :=
+  let pre := (flatten true p).flatMap strPieces
+  let app := (flatten true ap).flatMap strPieces
+  if emptyContent c then
+    if aon then (if truthy e then some (piecesTop e) else none)
+    else if (flatten true p).isEmpty && (flatten true e).isEmpty then none
+    else some (pre ++ (flatten true e).flatMap strPieces ++ app)
+  else some (pre ++ pieces c ++ app)
+
 /-- monitor for one constructed block: `lines`, `str`, `rt` = `TextBlock(str(block_without_header)).lines` -/
 def holdsC17_block (c h : Content) (lines : List Str) (str : Str) (rt : List Str) : List String :=
   let hdr := if truthy h then piecesTop h else []
